@@ -4,7 +4,6 @@ import (
 	"bytes"
 	"encoding/hex"
 	"fmt"
-	"sort"
 	"strings"
 
 	"github.com/nspcc-dev/neo-go/pkg/config"
@@ -226,7 +225,9 @@ func runC11(p *C11Plan) *sim.Outcome {
 		// DESIGN.md C11: a failure after a dropped block is reported as a probe only.
 		c.out.Probes["dropped_block_divergence"]++
 		c.out.Probes["dropped_block_divergence/"+v.Class]++
-		c.log.Addf("PROBE dropped-block divergence: %s: %s", v.Sig, firstLine(v.Msg))
+		// only the class is logged: after a drop the trie's own map-ordered Flush
+		// decides which node trips first, so the message is not a function of the plan
+		c.log.Addf("PROBE dropped-block divergence: %s", v.Class)
 		c.dropDetail = v.Sig + ": " + firstLine(v.Msg)
 		v = nil
 	}
@@ -750,5 +751,3 @@ func (c *c11) read() *sim.Violation {
 	}
 	return nil
 }
-
-var _ = sort.Strings
